@@ -446,3 +446,5 @@ func init() {
 		c03Fonts(r)
 	})
 }
+
+func refsfntWalk(b []byte) (*refsfnt.Container, []string) { return refsfnt.Walk(b) }
